@@ -365,22 +365,23 @@ def configs_a(ctx: Ctx) -> list[dict[str, Any]]:
         for mi in (0, 1, 2):
             add(mi, two[0])
             add(mi, two[1])
-            add(mi, two[1], reap=True)
+            add(mi, two[0], reap=True)
+            add(mi, two[1], bound=1, reap=True)
             add(mi, two[0], close=True)
             add(mi, two[1], die=0)
+            # line-granular: every pair of preemptions at every source line of the pool methods
+            add(mi, two[0], bound=2, trace=True)
         add(1, two[2])
         add(1, two[3])
-        add(1, two[3], reap=True)
+        add(1, two[3], bound=1, reap=True)
         add(2, two[1], close=True)
         add(1, three[0])
         add(1, three[1], bound=1)
         add(2, three[0], bound=1, close=True)
-        # line-granular runs (bound 1): every single preemption at every source line of the pool methods
-        add(1, two[0], bound=1, trace=True)
         add(1, two[1], bound=1, trace=True)
-        add(0, two[0], bound=1, trace=True)
         add(1, two[0], bound=1, trace=True, close=True)
         add(2, two[1], bound=1, trace=True, reap=True)
+        add(1, two[1], bound=1, trace=True, die=0)
         return out
     for mi in (0, 1, 2):
         for p in two:
